@@ -176,6 +176,7 @@ func verifOrderInsensitive(name string) {}
 func verifMapOrderAll(b bool)           {}
 func verifCapFork(b bool)               {}
 func verifUnwind(n int)                 {}
+func verifUnwindAssume(n int)           {}
 func verifTrackGlobals(b bool)          {}
 func verifGlobalWrites() int            { return 0 }
 
@@ -275,6 +276,21 @@ func (e *verifErr) Error() string { return e.msg }
 func verifContainsNewline(s string) bool {
 	for i := 0; i < len(s); i++ {
 		if s[i] == '\n' {
+			return true
+		}
+	}
+	return false
+}
+
+func verifNotKeyOf(s string, m map[string]string) {
+	if _, ok := m[s]; ok {
+		panic(verifAssumeFailed{})
+	}
+}
+
+func verifMemberOf(s string, words []string) bool {
+	for _, w := range words {
+		if w == s {
 			return true
 		}
 	}
